@@ -139,6 +139,25 @@ _CALLEE_RESUME_FAILS = {
         [{"op": "probe"}, {"op": "return", "e": 2}]],
     "params": {"kinds": {}},
 }
+# a synchronous call whose nested computation has a pass that ends with the awaited task unfinished and nothing to flush (one
+# sibling is suspended on a batch item, the other flushes that batch through item.value()); back in the caller the active task
+# is the caller
+_NESTED_NOTHING_TO_FLUSH = {
+    "roots": [[
+        {"op": "probe"},
+        {"op": "let", "h": "h0", "f": {"task": [{"op": "yield", "x": "x1", "s": {"tuple": [
+            {"new": {"task": [{"op": "yield", "x": "x2", "s": {"new": {"item": [0, 1, {"set": 5}]}}}, {"op": "return", "e": {"var": "x2"}}]}},
+            {"new": {"task": [{"op": "let", "h": "h1", "f": {"item": [0, 2, {"set": 6}]}}, {"op": "sync", "x": "x3", "h": "h1"},
+                              {"op": "return", "e": {"var": "x3"}}]}}]}},
+            {"op": "return", "e": {"var": "x1"}}]}},
+        {"op": "sync", "x": "y1", "h": "h0"},
+        {"op": "probe"},
+        {"op": "yield", "x": "y2", "s": {"new": {"task": [{"op": "probe"}, {"op": "return", "e": 1}]}}},
+        {"op": "probe"},
+        {"op": "return", "e": {"var": "y1"}}],
+        [{"op": "probe"}, {"op": "return", "e": 2}]],
+    "params": {"kinds": {}},
+}
 _EXTRA = [(2, dict(_base, name="ctx-faults", p_ctx_fault=0.8, p_with=0.45, p_item=0.6, p_probe=0.25, p_nonasync=0.1)),
           (1, dict(_base, name="cancel-self", p_flush_raise=0.8, p_via_cancel=0.8, p_item=0.65, nkinds=3)),
           (1, dict(_base, name="base-errors", p_base_err=1.0, p_flush_raise=0.5, p_item=0.6)),
@@ -147,5 +166,5 @@ _EXTRA = [(2, dict(_base, name="ctx-faults", p_ctx_fault=0.8, p_with=0.45, p_ite
 
 mach.install(globals(), "C08", ("EvProbe", "EvSched"), ("C08:",), PROFILES, n_quick=300, n_thorough=25000,
              nontrivial=_nontrivial, level="proof",
-             corpus=[_GUARD_BATCH, _GUARD_NESTED, _GUARD_CAUGHT, _STALE_BATCH, _RESUME_FAILS, _CANCEL_SELF, _RETURNS_FUTURE, _CALLEE_RESUME_FAILS],
+             corpus=[_GUARD_BATCH, _GUARD_NESTED, _GUARD_CAUGHT, _STALE_BATCH, _RESUME_FAILS, _CANCEL_SELF, _RETURNS_FUTURE, _CALLEE_RESUME_FAILS, _NESTED_NOTHING_TO_FLUSH],
              extra_gen=mach.extra_profiles(_EXTRA, 100, 6000))
